@@ -14,7 +14,7 @@ import json, warnings
 import numpy as np
 from scipy import sparse
 warnings.simplefilter("ignore")
-from pymablock.block_diagonalization import solve_sylvester_direct
+from pymablock.block_diagonalization import solve_sylvester_direct, solve_sylvester_KPM
 from pymablock.series import zero
 import implicit_corr as IC
 
@@ -73,6 +73,24 @@ def main(seed, ncases, driver, out):
                 with np.errstate(divide="ignore", invalid="ignore"): want = np.where(np.abs(dE) > 1e-12, Y / dE, 0)
                 cmp(f"explicit ({i}, {j})", V, want, 1 + np.abs(want).max())
             if solve(zero, (i, nb, 1)) is not zero: bad = bad or {"what": "zero right-hand side is not answered with zero"}
+        if herm and c % 4 == 0:
+            # the KPM solver object: accuracy within the requested one, and no memory — the answer to a request does not depend on the requests made before
+            # (one object is deterministic to the last bit; only a fresh object draws a new random start vector for the spectral bounds)
+            acc = 1e-6; dist["kpm solver object"] = dist.get("kpm solver object", 0) + 1
+            try:
+                ks = solve_sylvester_KPM(h0, [R[:, p] for p in parts], {"atol": acc})
+                p0 = parts[0]; Ei = ev[p0].real; si = len(p0)
+                Ya = rng.normal(size=(si, N)); Yb = 3.0 * rng.normal(size=(si, N))
+                Va1 = np.array(ks(Ya, (0, nb, 1))); _ = ks(Yb, (0, nb, 2))
+                if nb > 1: _ = ks(rng.normal(size=(len(parts[1]), N)), (1, nb, 1))
+                Va2 = np.array(ks(Ya, (0, nb, 1)))
+                evals += 1
+                if not np.array_equal(Va1, Va2) and bad is None:
+                    bad = {"what": "KPM solver object: the same request answered differently after other requests", "relative_error": float(np.abs(Va1 - Va2).max())}
+                want = ((Ya @ RB) / (Ei[:, None] - eB.real[None, :])) @ LB.conj().T
+                cmp("KPM solver object: closed form (within 300 x the requested accuracy)", Va1 * (1e-8 / (300 * acc)), want * (1e-8 / (300 * acc)), (1 + np.abs(want).max()))
+            except Exception as e:
+                bad = bad or {"what": "KPM solver object raises: " + type(e).__name__ + ": " + str(e)[:120]}
         distinct += 1
         if bad: failures.append(dict(desc, kind="solver-differs-from-closed-form", **bad))
     json.dump({"evaluations": evals, "cases": ncases, "distinct_nontrivial": distinct, "failures": failures, "distribution": dist, "samples": samples,
